@@ -283,24 +283,26 @@ def run_ion_association(ctx, gen_leaves, boost=1):
             flagged.append(ob)
         else:
             byspecies.setdefault((db, name), []).append(ob)
-    chosen = list(flagged[:600])
+    # priority: everything the float pre-check flags; one observation (highest MU) of every species of the three
+    # databases the property names and of the -activity_water species; then a second observation (lowest MU) and further
+    # random ones; the thousands of iso.dat isotopologues (same formulas as their parents) fill what is left of the budget
     keep = ctx.n(2, 6)
+    first, second, isorest = [], [], []
     for key in sorted(byspecies):
         l = sorted(byspecies[key], key=lambda ob: ob[4]["mu"])
-        if key[0] == "iso.dat" and l[0][2][0] != "wateriso" and not ctx.thorough:
-            l = [ctx.rng.choice(l)]       # thousands of isotopologues share the formulas of their parent species
-        pick = [l[0], l[-1]] + [ctx.rng.choice(l) for _ in range(max(0, keep - 2))]
-        seen = set()
-        for ob in pick[:keep]:
+        if key[0] == "iso.dat" and l[0][2][0] != "wateriso":
+            isorest.append(ctx.rng.choice(l))
+            continue
+        first.append(l[-1])
+        extra, seen = [l[0]] + [ctx.rng.choice(l) for _ in range(max(0, keep - 2))], {id(l[-1])}
+        for ob in extra:
             if id(ob) not in seen:
                 seen.add(id(ob))
-                chosen.append(ob)
-    cap = ctx.n(2600, 20000) * boost
-    if len(chosen) > cap:       # keep every flagged observation, subsample the rest (quick tier budget)
-        nfl = min(len(flagged), 600)
-        rest = chosen[nfl:]
-        ctx.rng.shuffle(rest)
-        chosen = chosen[:nfl] + rest[:max(0, cap - nfl)]
+                second.append(ob)
+    ctx.rng.shuffle(second)
+    ctx.rng.shuffle(isorest)
+    cap = ctx.n(3000, 24000) * boost
+    chosen = (list(flagged[:600]) + first + second + isorest)[:max(cap, len(flagged[:600]) + len(first))]
     exprs = ["check_gamma %s %s" % (coq_model(ob[2]), coq_obs(ob[3], ob[4])) for ob in chosen]
     vals, errs = coq_bools(PRELUDE, exprs)
     if errs:
@@ -590,6 +592,24 @@ def replay(ctx):
     ctx.rule = "replay of " + ctx.replay
 
 
+def checker_fresh():
+    """C16/Checker.vo (and what it imports) is newer than all of its sources"""
+    try:
+        need = ["Base/RExpr", "Base/IntervalEval", "C16/Spec", "C16/Checker"]
+        t = None
+        for f in need:            # dependency order: every .vo newer than its .v and than the previous .vo
+            v, vo = os.path.join(vlib.COQ, f + ".v"), os.path.join(vlib.COQ, f + ".vo")
+            if not os.path.exists(vo) or os.path.getmtime(vo) < os.path.getmtime(v):
+                return False
+            if f.startswith("C16") and t is not None and os.path.getmtime(vo) < t:
+                return False
+            if f.startswith("Base"):
+                t = max(t or 0, os.path.getmtime(vo))
+        return True
+    except OSError:
+        return False
+
+
 def localise(ctx):
     """name the lemma (hence the code region) behind each failing file:line reported by make"""
     seen = set()
@@ -629,8 +649,9 @@ def run(ctx):
         ctx.obligation("translator(C16)", False, repr(ex))
     # the verified checkers do not depend on the generated files: build them first, then prove the theorems (stage 3) while
     # the correspondence (stage 4) is already running
-    chk = vlib.coq_make(["C16/Checker.vo"])
-    if not chk["C16/Checker.vo"][0]:
+    if not checker_fresh():      # (vlib.coq_make takes the global coq lock: skip it when nothing has to be rebuilt)
+        vlib.coq_make(["C16/Checker.vo"])
+    if not checker_fresh():
         vlib.coq_stage(ctx, "Props/Properties_C16.vo", extra_targets=["C16/Checker.vo"])
         return
     box = {}
